@@ -46,10 +46,13 @@ def main():
         "version": 1,
         "setup_cmd": SETUP,
         "hooks": {"guard": env.GUARD,
-                  "enable": "no source hooks: every observation point is reached from outside (public API, attribute reads "
-                            "named in the properties' observe_at, wrapping in the harness process); checks export "
-                            "MABWISER_VERIF=1 and import mabwiser from /repo's working tree",
-                  "baseline_off_cmd": BASELINE_OFF, "source_commits": [], "add_only": True},
+                  "enable": "checks export MABWISER_VERIF=1 and import mabwiser from /repo's working tree (pure Python: nothing to "
+                            "build). One source hook: with MABWISER_VERIF=1 *and* MABWISER_VERIF_GB_SCALE=<float> set, "
+                            "Simulator._run_train_test_split multiplies its distance-list size estimate by that factor, so that the "
+                            "multi-chunk offline / online drivers (otherwise > 1 GB of distances) are reachable with small data (C15, "
+                            "C16). Every other observation point is reached from outside (public API, attribute reads named in the "
+                            "properties' observe_at, wrapping inside the harness process, sys.monitoring).",
+                  "baseline_off_cmd": BASELINE_OFF, "source_commits": ["656ecff"], "add_only": True},
         "engines": [{"name": "mon", "path": "/verif/mon", "serves_properties": [c["property_id"] for c in checks],
                      "kind_free_text": "runtime monitoring: API-boundary recorders, reference-model oracles, twin/differential "
                                        "monitors, always-on result-shape and input-snapshot contracts, schedule perturbation"}],
